@@ -350,20 +350,42 @@ theorem ms_shift (w : List α) (h : 0 < w.length) : (↑w : Multiset α) = ↑(w
 
 end Arr
 
-/-! ## user data of `iwxstr` and `iwpool`, child pools -/
+/-! ## user data of `iwxstr` and `iwpool`, child pools with their own reference counts, orphans -/
 namespace Pool
 
-/-- user data held by the attached children -/
+/-- user data held by a handle-indexed list of pools (attached children, or orphans) -/
 def heldK (kids : List (Nat × Pool)) : Multiset Nat := ↑(kids.flatMap (·.2.ud.toList))
-/-- everything a pool (with its children) will hand to free functions when destroyed -/
-def held (s : Sys) : Multiset Nat := heldK s.kids + ↑s.main.ud.toList
+/-- the user data owned by some live pool of the family: the attached children, the main pool, the orphans -/
+def held (s : Sys) : Multiset Nat := heldK s.kids + ↑s.main.ud.toList + heldK s.orphans
 
-/-- handles of attached children are distinct and below the counter -/
-def KidsOk (s : Sys) : Prop := (s.kids.map (·.1)).Nodup ∧ ∀ p ∈ s.kids, p.1 < s.next
+/-- child handles (attached children and orphans together) are distinct and below the counter -/
+def KidsOk (s : Sys) : Prop := ((s.kids ++ s.orphans).map (·.1)).Nodup ∧ ∀ p ∈ s.kids ++ s.orphans, p.1 < s.next
+
+/-- once the main pool is freed it has no children and no user data any more -/
+def GoneOk (s : Sys) : Prop := s.gone = true → s.kids = [] ∧ s.main.ud = none
+
+theorem heldK_nil : heldK [] = 0 := rfl
 
 theorem heldK_cons (p : Nat × Pool) (kids : List (Nat × Pool)) :
     heldK (p :: kids) = ↑p.2.ud.toList + heldK kids := by
   unfold heldK; rw [List.flatMap_cons, ← Multiset.coe_add]
+
+theorem heldK_append (a b : List (Nat × Pool)) : heldK (a ++ b) = heldK a + heldK b := by
+  unfold heldK; rw [List.flatMap_append, ← Multiset.coe_add]
+
+theorem KidsOk.kids {s : Sys} (ok : KidsOk s) : (s.kids.map (·.1)).Nodup := by
+  have := ok.1; rw [List.map_append] at this; exact this.sublist (List.sublist_append_left _ _)
+
+theorem KidsOk.orphans {s : Sys} (ok : KidsOk s) : (s.orphans.map (·.1)).Nodup := by
+  have := ok.1; rw [List.map_append] at this; exact this.sublist (List.sublist_append_right _ _)
+
+/-- a step that keeps the counter and only drops handles keeps `KidsOk` -/
+theorem kidsOk_of_sub (s s' : Sys) (ok : KidsOk s) (hn : s'.next = s.next)
+    (hs : ((s'.kids ++ s'.orphans).map (·.1)).Sublist ((s.kids ++ s.orphans).map (·.1))) : KidsOk s' := by
+  refine ⟨ok.1.sublist hs, fun p hp => ?_⟩
+  have : p.1 ∈ (s.kids ++ s.orphans).map (·.1) := hs.subset (List.mem_map_of_mem hp)
+  obtain ⟨p0, hp0, e⟩ := List.mem_map.mp this
+  rw [hn, ← e]; exact ok.2 p0 hp0
 
 theorem filter_ne_self (kids : List (Nat × Pool)) (h : Nat) (hn : h ∉ kids.map (·.1)) :
     kids.filter (fun p => decide (p.1 ≠ h)) = kids := by
@@ -380,13 +402,13 @@ theorem map_ne_self (kids : List (Nat × Pool)) (h : Nat) (c : Pool) (hn : h ∉
     rw [List.map_cons, List.mem_cons, not_or] at hn
     rw [List.map_cons, ih hn.2, if_neg (fun e => hn.1 e.symm)]
 
-/-- the child with handle `h`: taking it out / replacing it changes the held user data by that child's only -/
+/-- the pool with handle `h`: taking it out / replacing it changes the held user data by that pool's only -/
 theorem kid_extract (h : Nat) (q : Pool) : ∀ (kids : List (Nat × Pool)), (kids.map (·.1)).Nodup →
-    (kids.find? (·.1 = h)).map (·.2) = some q →
+    findIn kids h = some q →
     heldK kids = ↑q.ud.toList + heldK (kids.filter (fun p => decide (p.1 ≠ h))) ∧
-    ∀ c : Pool, heldK (kids.map fun (p : Nat × Pool) => if p.1 = h then (p.1, c) else (p.1, p.2)) + ↑q.ud.toList =
-      heldK kids + ↑c.ud.toList := by
+    ∀ c : Pool, heldK (setIn kids h c) + ↑q.ud.toList = heldK kids + ↑c.ud.toList := by
   intro kids
+  unfold findIn setIn
   induction kids with
   | nil => intro _ hf; simp at hf
   | cons p rest ih =>
@@ -426,11 +448,37 @@ theorem kid_extract (h : Nat) (q : Pool) : ∀ (kids : List (Nat × Pool)), (kid
           _ = ↑p.2.ud.toList + (heldK rest + ↑c.ud.toList) := by rw [this]
           _ = ↑p.2.ud.toList + heldK rest + ↑c.ud.toList := by abel
 
+theorem setIn_keys (l : List (Nat × Pool)) (h : Nat) (c : Pool) : (setIn l h c).map (·.1) = l.map (·.1) := by
+  unfold setIn
+  rw [List.map_map]
+  apply List.map_congr_left
+  intro p _
+  simp only [Function.comp]
+  split <;> rfl
+
+/-- replacing a pool by one with the same user data (a reference count change) leaves the held user data alone -/
+theorem heldK_setIn_same (l : List (Nat × Pool)) (h : Nat) (q c : Pool) (nd : (l.map (·.1)).Nodup)
+    (hq : findIn l h = some q) (hc : c.ud = q.ud) : heldK (setIn l h c) = heldK l := by
+  have := (kid_extract h q l nd hq).2 c
+  rw [hc] at this
+  exact add_right_cancel this
+
+/-- setting user data of the pool with handle `h` in a list -/
+theorem heldK_setIn_ud (l : List (Nat × Pool)) (h : Nat) (q : Pool) (id : Nat) (nd : (l.map (·.1)).Nodup)
+    (hq : findIn l h = some q) : (↑(udSet q id).2 : Multiset Nat) + heldK (setIn l h (udSet q id).1) = heldK l + ↑[id] := by
+  have := (kid_extract h q l nd hq).2 (udSet q id).1
+  have e3 : (↑(udSet q id).1.ud.toList : Multiset Nat) = ↑[id] := rfl
+  rw [e3] at this
+  show (↑q.ud.toList : Multiset Nat) + _ = _
+  rw [← this]; abel
+
+theorem findIn_nil (h : Nat) : findIn [] h = none := rfl
+
 theorem kidsOk_attach (s : Sys) (c : Pool) (ok : KidsOk s) : KidsOk (attach s c).1 := by
   unfold attach
   refine ⟨?_, ?_⟩
-  · show ((s.next, c) :: s.kids).map (·.1) |>.Nodup
-    rw [List.map_cons, List.nodup_cons]
+  · show (((s.next, c) :: s.kids) ++ s.orphans).map (·.1) |>.Nodup
+    rw [List.cons_append, List.map_cons, List.nodup_cons]
     refine ⟨?_, ok.1⟩
     intro hm
     obtain ⟨p, hp, e⟩ := List.mem_map.mp hm
@@ -439,97 +487,337 @@ theorem kidsOk_attach (s : Sys) (c : Pool) (ok : KidsOk s) : KidsOk (attach s c)
     omega
   · intro p hp
     show p.1 < s.next + 1
-    rcases List.mem_cons.mp hp with e | e
+    have hp' : p ∈ (s.next, c) :: (s.kids ++ s.orphans) := hp
+    rcases List.mem_cons.mp hp' with e | e
     · rw [e]; simp
     · have := ok.2 p e; omega
 
 theorem held_attach (s : Sys) (c : Pool) : held (attach s c).1 = held s + ↑c.ud.toList := by
-  show heldK ((s.next, c) :: s.kids) + ↑s.main.ud.toList = heldK s.kids + ↑s.main.ud.toList + ↑c.ud.toList
+  show heldK ((s.next, c) :: s.kids) + ↑s.main.ud.toList + heldK s.orphans = heldK s.kids + ↑s.main.ud.toList + heldK s.orphans + ↑c.ud.toList
   rw [heldK_cons]; abel
 
-theorem destroyKid_none (s : Sys) (c : Nat) (hq : kid s c = none) : destroyKid s c = (s, []) := by
-  unfold destroyKid; rw [hq]
+/-! ### `iwpool_destroy` on a child handle -/
 
-theorem destroyKid_some (s : Sys) (c : Nat) (q : Pool) (hq : kid s c = some q) :
-    destroyKid s c = ({ s with kids := s.kids.filter (fun p => decide (p.1 ≠ c)) }, q.ud.toList) := by
-  unfold destroyKid; rw [hq]
-
-/-- destroying a child early frees exactly its user data; its siblings stay attached -/
-theorem held_destroyKid (s : Sys) (c : Nat) (ok : KidsOk s) :
-    KidsOk (destroyKid s c).1 ∧ (↑(destroyKid s c).2 : Multiset Nat) + held (destroyKid s c).1 = held s := by
-  cases hq : kid s c with
-  | none => rw [destroyKid_none s c hq]; exact ⟨ok, by ms_norm⟩
+/-- one `iwpool_destroy` of a childless pool in a list: what is freed leaves the list, nothing else changes; with
+references left nothing is freed and the pool keeps its user data -/
+theorem held_destroyIn (l : List (Nat × Pool)) (h : Nat) (nd : (l.map (·.1)).Nodup) (l' : List (Nat × Pool)) (b : Bool)
+    (f : List Nat) (hd : destroyIn l h = some (l', b, f)) :
+    (↑f : Multiset Nat) + heldK l' = heldK l ∧ (l'.map (·.1)).Sublist (l.map (·.1)) := by
+  unfold destroyIn at hd
+  cases hq : findIn l h with
+  | none => rw [hq] at hd; simp at hd
   | some q =>
-    rw [destroyKid_some s c q hq]
-    obtain ⟨i1, _⟩ := kid_extract c q s.kids ok.1 hq
-    refine ⟨⟨ok.1.sublist ((List.filter_sublist).map _), fun p hp => ok.2 p (List.mem_of_mem_filter hp)⟩, ?_⟩
-    show (↑q.ud.toList : Multiset Nat) + (heldK (s.kids.filter (fun p => decide (p.1 ≠ c))) + ↑s.main.ud.toList) =
-      heldK s.kids + ↑s.main.ud.toList
-    rw [i1]; abel
+    rw [hq] at hd
+    simp only [Option.map_some, Option.some.injEq] at hd
+    split at hd
+    · simp only [Prod.mk.injEq] at hd
+      obtain ⟨rfl, rfl, rfl⟩ := hd
+      refine ⟨?_, by rw [setIn_keys]⟩
+      rw [heldK_setIn_same l h q (unref q) nd hq rfl]; ms_norm
+    · simp only [Prod.mk.injEq] at hd
+      obtain ⟨rfl, rfl, rfl⟩ := hd
+      exact ⟨((kid_extract h q l nd hq).1).symm, (List.filter_sublist).map _⟩
 
-theorem setKid_kids (s : Sys) (c : Nat) (q' : Pool) :
-    (setKid s c q').kids = s.kids.map fun (p : Nat × Pool) => if p.1 = c then (p.1, q') else (p.1, p.2) := by
-  unfold setKid
-  show List.map _ s.kids = _
-  apply List.map_congr_left
-  intro p _
-  obtain ⟨i, q0⟩ := p
-  rfl
+theorem destroyIn_some (l : List (Nat × Pool)) (h : Nat) (q : Pool) (hq : findIn l h = some q) :
+    destroyIn l h = some (if q.refs > 1 then (setIn l h (unref q), false, [])
+                          else (l.filter (fun p => decide (p.1 ≠ h)), true, q.ud.toList)) := by
+  unfold destroyIn; rw [hq]; rfl
 
-/-- setting the user data of a child frees the child's previous user data and takes the new one -/
+theorem destroyIn_none (l : List (Nat × Pool)) (h : Nat) (hq : findIn l h = none) : destroyIn l h = none := by
+  unfold destroyIn; rw [hq]; rfl
+
+theorem destroyKid_kids (s : Sys) (c : Nat) (k : List (Nat × Pool)) (b : Bool) (f : List Nat)
+    (h : destroyIn s.kids c = some (k, b, f)) : destroyKid s c = ({ s with kids := k }, some b, f) := by
+  unfold destroyKid; rw [h]
+
+theorem destroyKid_orph (s : Sys) (c : Nat) (o : List (Nat × Pool)) (b : Bool) (f : List Nat)
+    (h1 : destroyIn s.kids c = none) (h2 : destroyIn s.orphans c = some (o, b, f)) :
+    destroyKid s c = ({ s with orphans := o }, some b, f) := by
+  unfold destroyKid; rw [h1, h2]
+
+theorem destroyKid_none (s : Sys) (c : Nat) (h1 : destroyIn s.kids c = none) (h2 : destroyIn s.orphans c = none) :
+    destroyKid s c = (s, none, []) := by
+  unfold destroyKid; rw [h1, h2]
+
+/-- `iwpool_destroy` on a child handle frees exactly what leaves the family: freed + held after = held before -/
+theorem held_destroyKid (s : Sys) (c : Nat) (ok : KidsOk s) :
+    KidsOk (destroyKid s c).1 ∧ (↑(destroyKid s c).2.2 : Multiset Nat) + held (destroyKid s c).1 = held s := by
+  cases h1 : destroyIn s.kids c with
+  | some r =>
+    obtain ⟨k, b, f⟩ := r
+    rw [destroyKid_kids s c k b f h1]
+    obtain ⟨hb, hs⟩ := held_destroyIn s.kids c ok.kids k b f h1
+    refine ⟨kidsOk_of_sub s _ ok rfl ?_, ?_⟩
+    · show ((k ++ s.orphans).map (·.1)).Sublist _
+      rw [List.map_append, List.map_append]; exact hs.append (List.Sublist.refl _)
+    · show (↑f : Multiset Nat) + (heldK k + ↑s.main.ud.toList + heldK s.orphans) = heldK s.kids + ↑s.main.ud.toList + heldK s.orphans
+      rw [← hb]; abel
+  | none =>
+    cases h2 : destroyIn s.orphans c with
+    | some r =>
+      obtain ⟨o, b, f⟩ := r
+      rw [destroyKid_orph s c o b f h1 h2]
+      obtain ⟨hb, hs⟩ := held_destroyIn s.orphans c ok.orphans o b f h2
+      refine ⟨kidsOk_of_sub s _ ok rfl ?_, ?_⟩
+      · show ((s.kids ++ o).map (·.1)).Sublist _
+        rw [List.map_append, List.map_append]; exact (List.Sublist.refl _).append hs
+      · show (↑f : Multiset Nat) + (heldK s.kids + ↑s.main.ud.toList + heldK o) = heldK s.kids + ↑s.main.ud.toList + heldK s.orphans
+        rw [← hb]; abel
+    | none => rw [destroyKid_none s c h1 h2]; exact ⟨ok, by ms_norm⟩
+
+/-- what `iwpool_destroy` on a child handle returns and frees, by the reference count of the pool it denotes: more
+than one reference → `false`, nothing freed; the last one → `true`, exactly that pool's user data -/
+theorem destroyKid_result (s : Sys) (c : Nat) (q : Pool) (hq : lookup s c = some q) :
+    (destroyKid s c).2 = if 1 < q.refs then (some false, []) else (some true, q.ud.toList) := by
+  unfold lookup kid orphan at hq
+  cases hk : findIn s.kids c with
+  | some q' =>
+    rw [hk] at hq
+    simp only [Option.some_or, Option.some.injEq] at hq
+    subst hq
+    have h1 := destroyIn_some s.kids c q' hk
+    by_cases hr : 1 < q'.refs
+    · rw [if_pos hr] at h1; rw [destroyKid_kids s c _ _ _ h1, if_pos hr]
+    · rw [if_neg hr] at h1; rw [destroyKid_kids s c _ _ _ h1, if_neg hr]
+  | none =>
+    rw [hk] at hq
+    simp only [Option.none_or] at hq
+    have h1 := destroyIn_none s.kids c hk
+    have h2 := destroyIn_some s.orphans c q hq
+    by_cases hr : 1 < q.refs
+    · rw [if_pos hr] at h2; rw [destroyKid_orph s c _ _ _ h1 h2, if_pos hr]
+    · rw [if_neg hr] at h2; rw [destroyKid_orph s c _ _ _ h1 h2, if_neg hr]
+
+/-- a handle that denotes no pool: nothing happens -/
+theorem destroyKid_nochild (s : Sys) (c : Nat) (hq : lookup s c = none) : destroyKid s c = (s, none, []) := by
+  unfold lookup kid orphan at hq
+  cases hk : findIn s.kids c with
+  | some q' => rw [hk] at hq; simp at hq
+  | none =>
+    rw [hk] at hq
+    simp only [Option.none_or] at hq
+    exact destroyKid_none s c (destroyIn_none _ _ hk) (destroyIn_none _ _ hq)
+
+/-! ### user data / references through a child handle -/
+
+theorem setAny_kid (s : Sys) (c : Nat) (q p : Pool) (hk : findIn s.kids c = some q) : setAny s c p = setKid s c p := by
+  unfold setAny kid; rw [hk]
+
+theorem setAny_orph (s : Sys) (c : Nat) (p : Pool) (hk : findIn s.kids c = none) : setAny s c p = setOrphan s c p := by
+  unfold setAny kid; rw [hk]
+
+theorem kidsOk_setKid (s : Sys) (c : Nat) (p : Pool) (ok : KidsOk s) : KidsOk (setKid s c p) := by
+  refine kidsOk_of_sub s _ ok rfl ?_
+  show ((setIn s.kids c p ++ s.orphans).map (·.1)).Sublist _
+  rw [List.map_append, setIn_keys, ← List.map_append]
+
+theorem kidsOk_setOrphan (s : Sys) (c : Nat) (p : Pool) (ok : KidsOk s) : KidsOk (setOrphan s c p) := by
+  refine kidsOk_of_sub s _ ok rfl ?_
+  show ((s.kids ++ setIn s.orphans c p).map (·.1)).Sublist _
+  rw [List.map_append, setIn_keys, ← List.map_append]
+
+theorem kidsOk_setAny (s : Sys) (c : Nat) (p : Pool) (ok : KidsOk s) : KidsOk (setAny s c p) := by
+  unfold setAny; split
+  · exact kidsOk_setKid s c p ok
+  · exact kidsOk_setOrphan s c p ok
+
+/-- setting the user data through a child handle (attached child or orphan) frees that pool's previous user data and
+takes the new one -/
 theorem held_kidUdSet (s : Sys) (c id : Nat) (ok : KidsOk s) (s' : Sys) (f : List Nat)
     (hk : kidUdSet s c id = some (s', f)) :
     KidsOk s' ∧ (↑f : Multiset Nat) + held s' = held s + ↑[id] := by
   unfold kidUdSet at hk
-  cases hq : kid s c with
+  cases hq : lookup s c with
   | none => rw [hq] at hk; simp at hk
   | some q =>
     rw [hq] at hk
     simp only [Option.map_some, Option.some.injEq, Prod.mk.injEq] at hk
     obtain ⟨hs', hf⟩ := hk
-    obtain ⟨_, i2⟩ := kid_extract c q s.kids ok.1 hq
-    have hkids := setKid_kids s c (udSet q id).1
-    have hmain : (setKid s c (udSet q id).1).main = s.main := rfl
-    have hnext : (setKid s c (udSet q id).1).next = s.next := rfl
-    have hkeys : (setKid s c (udSet q id).1).kids.map (·.1) = s.kids.map (·.1) := by
-      rw [hkids, List.map_map]
-      apply List.map_congr_left
-      intro p _
-      simp only [Function.comp]
-      split <;> rfl
     rw [← hs', ← hf]
-    refine ⟨⟨by rw [hkeys]; exact ok.1, ?_⟩, ?_⟩
-    · intro p hp
-      rw [hnext]
-      have : p.1 ∈ (setKid s c (udSet q id).1).kids.map (·.1) := List.mem_map_of_mem hp
-      rw [hkeys] at this
-      obtain ⟨p0, hp0, e⟩ := List.mem_map.mp this
-      rw [← e]; exact ok.2 p0 hp0
-    · have := i2 (udSet q id).1
-      have e3 : (↑(udSet q id).1.ud.toList : Multiset Nat) = ↑[id] := rfl
-      rw [e3] at this
-      show (↑q.ud.toList : Multiset Nat) + (heldK (setKid s c (udSet q id).1).kids + ↑(setKid s c (udSet q id).1).main.ud.toList) =
-        heldK s.kids + ↑s.main.ud.toList + ↑[id]
-      rw [hkids, hmain]
-      calc (↑q.ud.toList : Multiset Nat) + (heldK (s.kids.map fun (p : Nat × Pool) => if p.1 = c then (p.1, (udSet q id).1) else (p.1, p.2)) + ↑s.main.ud.toList)
-          = (heldK (s.kids.map fun (p : Nat × Pool) => if p.1 = c then (p.1, (udSet q id).1) else (p.1, p.2)) + ↑q.ud.toList) + ↑s.main.ud.toList := by abel
-        _ = (heldK s.kids + ↑[id]) + ↑s.main.ud.toList := by rw [this]
+    refine ⟨kidsOk_setAny s c _ ok, ?_⟩
+    unfold lookup kid orphan at hq
+    cases hkk : findIn s.kids c with
+    | some q' =>
+      rw [hkk] at hq
+      simp only [Option.some_or, Option.some.injEq] at hq
+      subst hq
+      rw [setAny_kid s c q' _ hkk]
+      have := heldK_setIn_ud s.kids c q' id ok.kids hkk
+      show (↑(udSet q' id).2 : Multiset Nat) + (heldK (setIn s.kids c (udSet q' id).1) + ↑s.main.ud.toList + heldK s.orphans) =
+        heldK s.kids + ↑s.main.ud.toList + heldK s.orphans + ↑[id]
+      calc (↑(udSet q' id).2 : Multiset Nat) + (heldK (setIn s.kids c (udSet q' id).1) + ↑s.main.ud.toList + heldK s.orphans)
+          = (↑(udSet q' id).2 + heldK (setIn s.kids c (udSet q' id).1)) + ↑s.main.ud.toList + heldK s.orphans := by abel
+        _ = (heldK s.kids + ↑[id]) + ↑s.main.ud.toList + heldK s.orphans := by rw [this]
+        _ = _ := by abel
+    | none =>
+      rw [hkk] at hq
+      simp only [Option.none_or] at hq
+      rw [setAny_orph s c _ hkk]
+      have := heldK_setIn_ud s.orphans c q id ok.orphans hq
+      show (↑(udSet q id).2 : Multiset Nat) + (heldK s.kids + ↑s.main.ud.toList + heldK (setIn s.orphans c (udSet q id).1)) =
+        heldK s.kids + ↑s.main.ud.toList + heldK s.orphans + ↑[id]
+      calc (↑(udSet q id).2 : Multiset Nat) + (heldK s.kids + ↑s.main.ud.toList + heldK (setIn s.orphans c (udSet q id).1))
+          = heldK s.kids + ↑s.main.ud.toList + (↑(udSet q id).2 + heldK (setIn s.orphans c (udSet q id).1)) := by abel
+        _ = heldK s.kids + ↑s.main.ud.toList + (heldK s.orphans + ↑[id]) := by rw [this]
         _ = _ := by abel
 
-/-- `iwpool_destroy` dropping the last reference frees the user data of every attached child and of the pool -/
-theorem held_destroy (s : Sys) (s' : Sys) (f : List Nat) (h : destroy s = (s', some f)) : (↑f : Multiset Nat) = held s := by
-  unfold destroy at h
-  split at h
-  · simp at h
-  · simp only [Prod.mk.injEq, Option.some.injEq] at h
-    rw [← h.2, ← Multiset.coe_add]; rfl
+/-- `iwpool_ref` through a child handle moves no ownership -/
+theorem held_refKid (s : Sys) (c : Nat) (ok : KidsOk s) (s' : Sys) (n : Nat) (hk : refKid s c = some (s', n)) :
+    KidsOk s' ∧ held s' = held s := by
+  unfold refKid at hk
+  cases hq : lookup s c with
+  | none => rw [hq] at hk; simp at hk
+  | some q =>
+    rw [hq] at hk
+    simp only [Option.map_some, Option.some.injEq, Prod.mk.injEq] at hk
+    rw [← hk.1]
+    refine ⟨kidsOk_setAny s c _ ok, ?_⟩
+    unfold lookup kid orphan at hq
+    cases hkk : findIn s.kids c with
+    | some q' =>
+      rw [hkk] at hq
+      simp only [Option.some_or, Option.some.injEq] at hq
+      subst hq
+      rw [setAny_kid s c q' _ hkk]
+      show heldK (setIn s.kids c _) + ↑s.main.ud.toList + heldK s.orphans = _
+      rw [heldK_setIn_same s.kids c q' { q' with refs := q'.refs + 1 } ok.kids hkk rfl]; rfl
+    | none =>
+      rw [hkk] at hq
+      simp only [Option.none_or] at hq
+      rw [setAny_orph s c _ hkk]
+      show heldK s.kids + ↑s.main.ud.toList + heldK (setIn s.orphans c _) = _
+      rw [heldK_setIn_same s.orphans c q { q with refs := q.refs + 1 } ok.orphans hq rfl]; rfl
 
-theorem destroy_unref (s : Sys) (s' : Sys) (h : destroy s = (s', none)) : held s' = held s ∧ (KidsOk s → KidsOk s') := by
+/-! ### `iwpool_destroy` of the parent -/
+
+theorem survivors_cons_live (p : Nat × Pool) (rest : List (Nat × Pool)) (hp : 1 < p.2.refs) :
+    survivors (p :: rest) = (p.1, unref p.2) :: survivors rest := by
+  simp [survivors, hp]
+
+theorem survivors_cons_dead (p : Nat × Pool) (rest : List (Nat × Pool)) (hp : ¬ 1 < p.2.refs) :
+    survivors (p :: rest) = survivors rest := by
+  simp [survivors, hp]
+
+theorem kidsFreed_cons_live (p : Nat × Pool) (rest : List (Nat × Pool)) (hp : 1 < p.2.refs) :
+    kidsFreed (p :: rest) = kidsFreed rest := by
+  simp [kidsFreed, hp]
+
+theorem kidsFreed_cons_dead (p : Nat × Pool) (rest : List (Nat × Pool)) (hp : ¬ 1 < p.2.refs) :
+    kidsFreed (p :: rest) = p.2.ud.toList ++ kidsFreed rest := by
+  simp [kidsFreed, hp]
+
+/-- the children loop of the parent's destroy splits the children's user data: freed with the children on their last
+reference, kept by the survivors -/
+theorem survivors_split (kids : List (Nat × Pool)) : heldK kids = ↑(kidsFreed kids) + heldK (survivors kids) := by
+  induction kids with
+  | nil => show heldK [] = ↑([] : List Nat) + heldK []; ms_norm
+  | cons p rest ih =>
+    by_cases hp : 1 < p.2.refs
+    · rw [survivors_cons_live p rest hp, kidsFreed_cons_live p rest hp, heldK_cons, heldK_cons, ih]
+      show (↑p.2.ud.toList : Multiset Nat) + _ = _ + (↑p.2.ud.toList + _)
+      abel
+    · rw [survivors_cons_dead p rest hp, kidsFreed_cons_dead p rest hp, heldK_cons, ih, ← Multiset.coe_add]
+      abel
+
+theorem survivors_keys (kids : List (Nat × Pool)) : ((survivors kids).map (·.1)).Sublist (kids.map (·.1)) := by
+  unfold survivors
+  rw [List.map_map]
+  exact (List.filter_sublist).map _
+
+/-- survivors: exactly the children somebody else still referenced, each with one reference fewer and its user data -/
+theorem mem_survivors (kids : List (Nat × Pool)) (h : Nat) (q : Pool) :
+    (h, q) ∈ survivors kids ↔ ∃ q0, (h, q0) ∈ kids ∧ 1 < q0.refs ∧ q = unref q0 := by
+  unfold survivors
+  simp only [List.mem_map, List.mem_filter, decide_eq_true_eq, Prod.mk.injEq]
+  constructor
+  · rintro ⟨p, ⟨hp, hr⟩, rfl, rfl⟩; exact ⟨p.2, hp, hr, rfl⟩
+  · rintro ⟨q0, hp, hr, rfl⟩; exact ⟨(h, q0), ⟨hp, hr⟩, rfl, rfl⟩
+
+theorem destroy_last (s : Sys) (h : ¬ s.main.refs > 1) :
+    destroy s = ({ s with main := { s.main with ud := none }, kids := [], orphans := survivors s.kids ++ s.orphans, gone := true },
+                 some (kidsFreed s.kids ++ s.main.ud.toList)) := by
+  unfold destroy; rw [if_neg h]
+
+/-- `iwpool_destroy` of the parent dropping the last reference: freed + held after = held before; the orphans keep theirs -/
+theorem held_destroy (s : Sys) (s' : Sys) (f : List Nat) (h : destroy s = (s', some f)) :
+    (↑f : Multiset Nat) + held s' = held s ∧ (KidsOk s → KidsOk s') ∧ GoneOk s' ∧
+    f = kidsFreed s.kids ++ s.main.ud.toList ∧ s'.orphans = survivors s.kids ++ s.orphans ∧ s'.gone = true := by
+  by_cases hr : s.main.refs > 1
+  · unfold destroy at h; rw [if_pos hr] at h; simp at h
+  · rw [destroy_last s hr] at h
+    simp only [Prod.mk.injEq, Option.some.injEq] at h
+    obtain ⟨rfl, rfl⟩ := h
+    refine ⟨?_, fun ok => kidsOk_of_sub s _ ok rfl ?_, fun _ => ⟨rfl, rfl⟩, rfl, rfl, rfl⟩
+    · show (↑(kidsFreed s.kids ++ s.main.ud.toList) : Multiset Nat) + (heldK [] + ↑([] : List Nat) + heldK (survivors s.kids ++ s.orphans)) =
+        heldK s.kids + ↑s.main.ud.toList + heldK s.orphans
+      rw [heldK_append, heldK_nil, survivors_split s.kids, ← Multiset.coe_add]
+      ms_norm; abel
+    · show ((([] : List (Nat × Pool)) ++ (survivors s.kids ++ s.orphans)).map (·.1)).Sublist _
+      rw [List.nil_append, List.map_append, List.map_append]
+      exact (survivors_keys s.kids).append (List.Sublist.refl _)
+
+theorem destroy_unref (s : Sys) (s' : Sys) (h : destroy s = (s', none)) :
+    held s' = held s ∧ (KidsOk s → KidsOk s') ∧ s'.gone = s.gone ∧ 1 < s.main.refs := by
   unfold destroy at h
   split at h
   · simp only [Prod.mk.injEq, and_true] at h
-    rw [← h]; exact ⟨rfl, fun ok => ok⟩
+    rw [← h]; exact ⟨rfl, fun ok => ok, rfl, by assumption⟩
   · simp at h
+
+/-! ### after the main pool is gone: calls through child handles leave the (empty) main part alone -/
+
+theorem destroyKid_frame (s : Sys) (c : Nat) :
+    (destroyKid s c).1.gone = s.gone ∧ (destroyKid s c).1.main = s.main ∧ (s.kids = [] → (destroyKid s c).1.kids = []) := by
+  cases h1 : destroyIn s.kids c with
+  | some r =>
+    obtain ⟨k, b, f⟩ := r
+    rw [destroyKid_kids s c k b f h1]
+    refine ⟨rfl, rfl, fun e => ?_⟩
+    rw [e] at h1; simp [destroyIn, findIn] at h1
+  | none =>
+    cases h2 : destroyIn s.orphans c with
+    | some r => obtain ⟨o, b, f⟩ := r; rw [destroyKid_orph s c o b f h1 h2]; exact ⟨rfl, rfl, fun e => e⟩
+    | none => rw [destroyKid_none s c h1 h2]; exact ⟨rfl, rfl, fun e => e⟩
+
+theorem setAny_frame (s : Sys) (c : Nat) (p : Pool) :
+    (setAny s c p).gone = s.gone ∧ (setAny s c p).main = s.main ∧ (s.kids = [] → (setAny s c p).kids = []) := by
+  unfold setAny; split
+  · refine ⟨rfl, rfl, fun e => ?_⟩
+    show setIn s.kids c p = []
+    rw [e]; rfl
+  · exact ⟨rfl, rfl, fun e => e⟩
+
+theorem goneOk_frame (s s' : Sys) (g : GoneOk s) (h : s'.gone = s.gone ∧ s'.main = s.main ∧ (s.kids = [] → s'.kids = [])) :
+    GoneOk s' := by
+  intro hg
+  rw [h.1] at hg
+  obtain ⟨a, b⟩ := g hg
+  exact ⟨h.2.2 a, by rw [h.2.1]; exact b⟩
+
+theorem goneOk_destroyKid (s : Sys) (c : Nat) (g : GoneOk s) : GoneOk (destroyKid s c).1 :=
+  goneOk_frame s _ g (destroyKid_frame s c)
+
+theorem goneOk_kidUdSet (s : Sys) (c id : Nat) (g : GoneOk s) (s' : Sys) (f : List Nat)
+    (hk : kidUdSet s c id = some (s', f)) : GoneOk s' := by
+  unfold kidUdSet at hk
+  cases hq : lookup s c with
+  | none => rw [hq] at hk; simp at hk
+  | some q =>
+    rw [hq] at hk
+    simp only [Option.map_some, Option.some.injEq, Prod.mk.injEq] at hk
+    rw [← hk.1]; exact goneOk_frame s _ g (setAny_frame s c _)
+
+theorem goneOk_refKid (s : Sys) (c : Nat) (g : GoneOk s) (s' : Sys) (n : Nat) (hk : refKid s c = some (s', n)) : GoneOk s' := by
+  unfold refKid at hk
+  cases hq : lookup s c with
+  | none => rw [hq] at hk; simp at hk
+  | some q =>
+    rw [hq] at hk
+    simp only [Option.map_some, Option.some.injEq, Prod.mk.injEq] at hk
+    rw [← hk.1]; exact goneOk_frame s _ g (setAny_frame s c _)
+
+theorem goneOk_of_alive (s : Sys) (h : s.gone = false) : GoneOk s := by
+  intro hg; rw [h] at hg; cases hg
 
 end Pool
 end IwModel
